@@ -53,15 +53,14 @@ def handle : List String → String
         | .error _ => "panic"
         | .ok [] => "ok -"
         | .ok _ =>
-          match filterLineK Gen.C02.filterWholeLen Gen.C02.filterSkip (en == "1") (Gen.C02.groupColors.map lit)
-              (lit Gen.C02.reset) line indices with
+          match filterLine (en == "1") (Gen.C02.groupColors.map lit) (lit Gen.C02.reset) line indices with
           | .ok segs => s!"ok {Hex.enc (render segs)}"
           | .error _ => "panic"
     | _, _ => "bad-args"
   | ["vis", b] =>
     match Hex.dec b with
     | some bytes =>
-      let v := (visibleRun (UInt8.ofNat Gen.C02.escapeRune) false bytes).1
+      let v := visible bytes
       -- StrLen counts runes: for well-formed UTF-8 these are the bytes that are not continuation bytes
       s!"ok {(v.filter fun c => c < 0x80 || c ≥ 0xc0).length}"
     | none => "bad-args"
